@@ -11,3 +11,14 @@ func (vm *Manager) ZZListeners() int {
 }
 
 func (vm *Manager) ZZGuard() { zzverif.Guard(vm.listeners, &vm.mu, "visitor.Manager.listeners") }
+
+// ZZAllow returns the secret and the allowed-users list registered for a secret proxy (nil, false if none).
+func (vm *Manager) ZZAllow(name string) (string, []string, bool) {
+	vm.mu.RLock()
+	defer vm.mu.RUnlock()
+	l, ok := vm.listeners[name]
+	if !ok {
+		return "", nil, false
+	}
+	return l.sk, append([]string(nil), l.allowUsers...), true
+}
